@@ -4,7 +4,8 @@ from harness.runlevel import drive, check_point, Observer, DEFAULTS
 
 PROPERTY = "C01"
 HANG_IS_VIOLATION = True
-PATH_WALL_S = 90
+PATH_WALL_S = 30
+REPLAY_WALL_S = 20
 ASSUMPTIONS = [
     "box bounds are arbitrary reals lo<hi (the floating-point containment of midpoints is the separate lemma L-mid of C02); rewards are arbitrary finite reals",
     "parameters are taken from a finite grid inside the documented ranges; histories are bounded by T rounds (see bounds)",
